@@ -65,7 +65,11 @@ Merge(parent, name, kwargs, props) ==
                  idx == {i \in 1..Len(base) : base[i].attr = p.attr}
              IN overlay(IF idx = {} THEN Append(base, p)
                         ELSE [base EXCEPT ![CHOOSE i \in idx : TRUE] = p], Tail(ps))
-  IN MkObj(name, (inh3 @@ kwargs) @@ [properties |-> overlay(PropsOf(parent), props)])
+      merged == inh3 @@ kwargs
+      (* an explicit additionalProperties=True is the default again: nothing is stored *)
+      norm == IF "additionalPropertiesB" \in DOMAIN merged /\ merged.additionalPropertiesB
+              THEN [k \in DOMAIN merged \ {"additionalPropertiesB"} |-> merged[k]] ELSE merged
+  IN MkObj(name, norm @@ [properties |-> overlay(PropsOf(parent), props)])
 
 (***************************************************************************)
 (* A validation call: outcome and the writes it performs on the heap       *)
